@@ -3,6 +3,7 @@ package proxy
 import (
 	stdcontext "context"
 	"errors"
+	"github.com/megaease/easegress/pkg/object/serviceregistry"
 	"io"
 	"net/http"
 	"net/url"
@@ -82,12 +83,12 @@ func vNewRequest(ctx stdcontext.Context, method, u string, body io.Reader) (*htt
 }
 
 func vWithHTTPStat(ctx stdcontext.Context, r *gohttpstat.Result) stdcontext.Context { return ctx }
-func vMetaReq(r *httpprot.Request) int64                                          { return 0 }
-func vMetaResp(r *httpprot.Response) int64                                        { return 0 }
-func vFastNow() time.Time                                                        { return time.Time{} }
-func vFastSince(t time.Time) time.Duration                                       { return 0 }
-func vTimeNow() time.Time                                                        { return time.Time{} }
-func vTimeSince(t time.Time) time.Duration                                       { return 0 }
+func vMetaReq(r *httpprot.Request) int64                                            { return 0 }
+func vMetaResp(r *httpprot.Response) int64                                          { return 0 }
+func vFastNow() time.Time                                                           { return time.Time{} }
+func vFastSince(t time.Time) time.Duration                                          { return 0 }
+func vTimeNow() time.Time                                                           { return time.Time{} }
+func vTimeSince(t time.Time) time.Duration                                          { return 0 }
 
 // a compressor delivers some number of bytes unrelated to its input
 type vGzip struct {
@@ -126,7 +127,7 @@ func vNewGzip(r io.Reader) *readers.GZipCompressReader {
 	return g
 }
 func vGzipRead(g *readers.GZipCompressReader, p []byte) (int, error) { return vGzips[g].Read(p) }
-func vGzipClose(g *readers.GZipCompressReader)                        {}
+func vGzipClose(g *readers.GZipCompressReader)                       {}
 
 // deadline context for the pool timeout
 type vTimeoutCtx struct {
@@ -425,6 +426,40 @@ func vForward(requestSide bool) {
 		verifCover("streamed")
 	}
 	verifCover("forwarded")
+}
+
+// verifC03_DiscoveredHost: the Host rule for servers that come from service discovery (built by
+// the real useService from the registry's report, classified by the real checkAddrPattern): an
+// instance addressed by IP gets the client's Host, an instance addressed by host name gets its own.
+func verifC03_DiscoveredHost() {
+	vSymbolicRequest = false
+	sp, _ := vPool(0, 0)
+	sp.spec.ServerTags = []string{"blue"}
+	byName := verifChoose("instance.addressedByHostName", 2) == 1
+	addr := "10.1.0.7"
+	if byName {
+		addr = "users.backend.internal"
+	}
+	sp.useService(map[string]*serviceregistry.ServiceInstanceSpec{
+		"i0": {InstanceID: "i0", Address: addr, Port: 8080, Tags: []string{"blue"}},
+	})
+	vNSends, vGzipCalls = 0, 0
+	vOutcome = func(int) (*http.Response, error) {
+		return &http.Response{StatusCode: 200, Header: http.Header{}, Body: &vBody{}, ContentLength: 0}, nil
+	}
+	fnSendRequest = vSend
+	ctx, _, _ := vClientRequest([]byte{1}, false)
+	sp.handle(ctx, false)
+	verifAssert(vNSends == 1, "exactly-one-request-sent")
+	s := vSends[0]
+	want := "http://" + addr + ":8080/p?q=1"
+	verifAssert(s.url == want, "request-goes-to-the-discovered-instance")
+	if byName {
+		verifAssert(s.host == "", "server-host-name-otherwise")
+		verifCover("discovered-host-name-server")
+	} else {
+		verifAssert(s.host == "client.host", "client-host-for-ip-or-keephost-servers")
+	}
 }
 
 var errNet = errors.New("network error")
